@@ -827,6 +827,15 @@ func (x *Exec) enterLoop(fr *Frame, li *loopInfo, in *State, phiEntry map[*ssa.P
 	if ls.Decreases != nil {
 		li.measure = x.evalInt(ls.Decreases, env)
 	}
+	// vacuity probe: the invariant (with everything assumed so far) must be satisfiable
+	if !x.dry {
+		name := fmt.Sprintf("%s/vacuity[L%d.invariant-sat]", x.unitName, li.ordinal)
+		if fr.site != "" {
+			name += "@" + fr.site
+		}
+		x.obligs = append(x.obligs, &Oblig{Name: name, Kind: "vacuity", Unit: x.unitName, Goal: x.C.Not(st.PC),
+			NAssume: len(x.assumes), Self: -1, Src: "loop invariant is satisfiable at the loop head (expected: sat)"})
+	}
 	for _, h := range ls.Hints {
 		t := x.evalBool(h.E, env)
 		x.oblige(st, "hint", fmt.Sprintf("L%d.%s", li.ordinal, h.Label), fr.site, h.Src, t)
